@@ -2314,15 +2314,16 @@ class Recipe:
                 step.to[0] = self.results[dest_name]
                 self.used.add(dest_name)
                 if isinstance(solvent, Container):
-                    # containers and such can change while baking the recipe
-                    solvent = self.results[solvent.name]
+                    # containers and such can change (and be renamed) while baking the recipe
+                    solvent_name = solvent.name
+                    solvent = self.results[solvent_name]
                 results = Container.create_solution(solute, solvent, dest_name, **kwargs)
                 if isinstance(solvent, Container):
-                    self.used.add(solvent.name)
-                    self.results[solvent.name], self.results[dest_name] = results
+                    self.used.add(solvent_name)
+                    self.results[solvent_name], self.results[dest_name] = results
                     # the solvent container is the source of this step
-                    step.objects_used.add(solvent.name)
-                    step.frm = [solvent, self.results[solvent.name]]
+                    step.objects_used.add(solvent_name)
+                    step.frm = [solvent, self.results[solvent_name]]
                 else:
                     self.results[dest_name] = results
                 step.substances_used = self.results[dest_name].get_substances()
